@@ -153,14 +153,16 @@ impl PidFileLocking {
         let tmp = self.0.with_file_name(tmp_name);
         let publish = || -> io::Result<()> {
             #[cfg(fuellabs_sway_verif)]
-            verif_step("lock.create", &self.0);
+            verif_step("lock.create", &tmp);
             let mut fs = File::create(&tmp)?;
             #[cfg(fuellabs_sway_verif)]
-            verif_step("lock.write", &self.0);
+            verif_step("lock.write", &tmp);
             fs.write_all(pid.to_string().as_bytes())?;
             fs.sync_all()?;
             fs.flush()?;
             drop(fs);
+            #[cfg(fuellabs_sway_verif)]
+            verif_step("lock.rename", &self.0);
             rename(&tmp, &self.0)
         };
         publish().map_err(|e| {
